@@ -91,9 +91,15 @@ int main(int argc, char** argv)
         int maj = c.at("maj"), min = c.at("min"), pat = c.at("pat");
         std::string variant = c.at("variant");
         bool legacy = c.at("legacy"), db2 = c.at("db2");
+        // (a database file that is present but has no content - what SQLite leaves behind when a file was opened and never written)
+        bool legacy_empty = c.value("legacy_empty", false), db2_empty = c.value("db2_empty", false);
         std::string dir = root + "/case" + std::to_string(++k);
         fs::create_directories(dir);
-        if (legacy)
+        if (legacy && legacy_empty)
+        {
+            std::ofstream(dir + "/m.db", std::ios::binary).flush();
+        }
+        else if (legacy)
         {
             std::string tpl = root + (variant == "desktop" ? "/tpl_desktop" : "/tpl_os");
             fs::copy_file(tpl + "/m.db", dir + "/m.db");
@@ -107,7 +113,12 @@ int main(int argc, char** argv)
             {
             }
         }
-        if (db2)
+        if (db2 && db2_empty)
+        {
+            fs::create_directories(dir + "/Database2");
+            std::ofstream(dir + "/Database2/m.db", std::ios::binary).flush();
+        }
+        else if (db2)
         {
             fs::create_directories(dir + "/Database2");
             fs::copy_file(root + "/tpl_v2/Database2/m.db", dir + "/Database2/m.db");
